@@ -957,7 +957,7 @@ func (ev *Evaluator) evalCall(x *ast.CallExpr, env *Env) Value {
 						if n, ok := ev.Eval(x.Args[1], env).(Int); ok && n.V >= 0 && n.V < 1<<16 {
 							s := &Slice{Elem: u.Elem(), Pos: x.Pos()}
 							for i := int64(0); i < n.V; i++ {
-								s.Elems = append(s.Elems, ev.zero(u.Elem()))
+								s.Elems = append(s.Elems, ev.zeroOrNil(u.Elem()))
 							}
 							return s
 						}
@@ -1200,13 +1200,13 @@ func (ev *Evaluator) litOfType(x *ast.CompositeLit, t types.Type, env *Env) Valu
 				e = kv.Value
 			}
 			for int64(len(s.Elems)) <= idx {
-				s.Elems = append(s.Elems, ev.zero(et))
+				s.Elems = append(s.Elems, ev.zeroOrNil(et))
 			}
 			s.Elems[idx] = ev.elt(e, et, env)
 			idx++
 		}
 		for n >= 0 && int64(len(s.Elems)) < n {
-			s.Elems = append(s.Elems, ev.zero(et))
+			s.Elems = append(s.Elems, ev.zeroOrNil(et))
 		}
 		return s
 	}
